@@ -8,6 +8,7 @@
 From Coq Require Import List Arith Bool ZArith Ring_theory.
 Import ListNotations.
 Require Import Base.C01_Sums Model.C01_Assembly Proofs.C01_AssemblyProofs Gen.C01Gen Dyn.C01Tie.
+Require Import Model.C01_Trilinear Proofs.C01_TrilinearProofs Dyn.C01TriTie.
 
 Section C01.
   Variable R : Type.
@@ -130,7 +131,57 @@ Section C01.
     gen_to_scalar R rO radd (gen_functional_assemble R rO radd rmul V W' form w b)
     = integrate R rO radd rmul (bnelems b) (bnq b) (fun e q => form (w e q)) (bdx b).
   Proof. exact (gen_functional_value R rO rI radd rmul rsub ropp Rth V). Qed.
+
+  (* ---------- TrilinearForm: position ((k*Nv+j)*Nw+i)*nt+e of the four arrays holds (w-basis dof of i, v-basis dof of j,
+     u-basis dof of k, kernel value); index rows are ordered (mats, rows, cols) = (w, v, u), global shape (N_w, N_v, N_u),
+     local shape (Nw, Nv, Nu); for three DIFFERENT bases and every integrand ---------- *)
+  Theorem C01_coo_trilinear_entries : forall form p (ub : basis) (vb0 wb0 : option basis),
+    let vb := match vb0 with None => ub | Some b => b end in
+    let wb := match wb0 with None => ub | Some b => b end in
+    let Nu := bNbfun ub in let Nv := bNbfun vb in let Nw := bNbfun wb in let nt := bnelems ub in
+    wf_basis ub -> wf_basis vb -> wf_basis wb -> bnelems vb = nt -> bnelems wb = nt ->
+    exists mats rows cols data,
+      gen_trilinear_assemble R rO radd rmul V W form p ub vb0 wb0
+        = Some (mkCoo [mats; rows; cols] data [bN wb; bN vb; bN ub] [Nw; Nv; Nu]) /\
+      length mats = Nu * Nv * Nw * nt /\ length rows = Nu * Nv * Nw * nt /\ length cols = Nu * Nv * Nw * nt /\
+      length data = Nu * Nv * Nw * nt /\
+      forall k j i e, k < Nu -> j < Nv -> i < Nw -> e < nt ->
+        let pos := ((k * Nv + j) * Nw + i) * nt + e in
+        nth pos mats 0 = nth e (element_dofs wb i) 0 /\
+        nth pos rows 0 = nth e (element_dofs vb j) 0 /\
+        nth pos cols 0 = nth e (element_dofs ub k) 0 /\
+        nth pos data rO = Kkjie R rO radd rmul V W form p ub vb wb k j i e.
+  Proof. exact (gen_trilinear_entries R rO radd rmul V W). Qed.
+
+  (* sum_abc T_abc w_a v_b u_c = sum_e sum_q f(u_h, v_h, w_h, p) dx  for forms linear in each of the three argument functions
+     (T = the N-tensor branch of COOData.toarray applied to the assembled data) *)
+  Theorem C01_trilinear_weak_form : forall (form : V -> V -> V -> W -> R),
+    (forall a b v w p, form (vadd a b) v w p = radd (form a v w p) (form b v w p)) ->
+    (forall s a v w p, form (vscale s a) v w p = rmul s (form a v w p)) ->
+    (forall u a b w p, form u (vadd a b) w p = radd (form u a w p) (form u b w p)) ->
+    (forall s u a w p, form u (vscale s a) w p = rmul s (form u a w p)) ->
+    (forall u v a b p, form u v (vadd a b) p = radd (form u v a p) (form u v b p)) ->
+    (forall s u v a p, form u v (vscale s a) p = rmul s (form u v a p)) ->
+    forall p (ub : basis) (vb0 wb0 : option basis) (u v w : nat -> R),
+      let vb := match vb0 with None => ub | Some b => b end in
+      let wb := match wb0 with None => ub | Some b => b end in
+      wf_basis ub -> wf_basis vb -> wf_basis wb -> bnelems vb = bnelems ub -> bnelems wb = bnelems ub ->
+      exists c T,
+        gen_trilinear_assemble R rO radd rmul V W form p ub vb0 wb0 = Some c /\
+        gen_to_dense3 R rO radd c = Some T /\
+        contract3 R rO radd rmul T w v u (bN wb) (bN vb) (bN ub)
+        = integrate R rO radd rmul (bnelems ub) (bnq ub)
+            (fun e q => form (interp ub u e q) (interp vb v e q) (interp wb w e q) (p e q)) (bdx ub).
+  Proof. exact (gen_trilinear_weak_form R rO rI radd rmul rsub ropp Rth V W vadd vscale). Qed.
 End C01.
+
+(* rows index test functions on the CHOSEN side: for an oriented facet set (OrientedBoundary, flag ori per facet) the cell
+   of side 0 is f2t[ori] and the cell of side 1 is f2t[1 - ori] (a negative row index counts from the end), the normal is
+   taken from f2t[ori]; for a plain facet array side s is f2t[s] and the normal comes from f2t[0] *)
+Theorem C01_oriented_side : forall ori : Z, (ori = 0 \/ ori = 1)%Z ->
+  ((gen_oriented_row0 ori) mod 2 = ori /\ (gen_oriented_row1 ori) mod 2 = 1 - ori /\
+   (gen_oriented_normal_row ori) mod 2 = ori /\ gen_plain_row 0 = 0 /\ gen_plain_row 1 = 1 /\ gen_plain_normal_row = 0)%Z.
+Proof. exact gen_oriented_side_spec. Qed.
 
 Print Assumptions C01_coo_bilinear_entries.
 Print Assumptions C01_coo_linear_entries.
@@ -139,6 +190,9 @@ Print Assumptions C01_forms_consistent.
 Print Assumptions C01_subset_basis.
 Print Assumptions C01_linear_weak_form.
 Print Assumptions C01_functional_value.
+Print Assumptions C01_coo_trilinear_entries.
+Print Assumptions C01_trilinear_weak_form.
+Print Assumptions C01_oriented_side.
 
 (* ---------- non-vacuity: 2 cells, Nu = 2 trial functions, Nv = 3 test functions, non-symmetric integrand,
    repeated DOFs, over Z; values are (value, derivative) pairs ---------- *)
